@@ -35,6 +35,7 @@ TRUSTED = ["Coq 8.16.1 kernel, vm_compute for the correspondence evaluation",
            "coordinates with <= 20 significant bits (incl. real ties) are compared with exact decimal rounding",
            "NumPy np.around = rint(x*10^d)/10^d (pinned by the correspondence on exact inputs incl. ties)"]
 CASE_IMPORTS = [("PW.model", "M_polyline_base"), ("PW.model", "M_plane"), ("PW.model", "M_serialize")]
+DEFINITIONAL = ["C19_deserialize_guarded_by_validate"]
 ASSUMPTIONS = ["theorems are about exact decimal rounding (round-half-even of x*10^d, divided by 10^d) over the reals",
                "magnitude bound: np.around multiplies by 10^d first, so 'rounded/serialize succeed within half a unit' is "
                "claimed (and sampled, up to |x|*10^d ~ 1e307) only for |x| * 10^d < 1.79e308; beyond it binary64 overflows "
@@ -527,7 +528,4 @@ def oracle(c, o):
 
 
 def classify(c, o, failure, disagrees):
-    # Polyline(v, is_closed=np.bool_(...)).serialize() carries the numpy scalar into the document
-    if c.get("closed_np") and isinstance(o, dict) and o.get("plain") is False and "isClosed" in o.get("ser_repr", ""):
-        return "is_closed_numpy_bool"
-    return None
+    return None     # no open finding: is_closed=np.bool_ was repaired in /repo 2b8d651; a recurrence is a violation
